@@ -653,6 +653,10 @@ static int tunnel_tun(int tun_fd, struct dnsfd *dns_fds)
 	if ((read = read_tun(tun_fd, in, sizeof(in))) <= 0)
 		return 0;
 
+	/* Need a complete IP header to find the target */
+	if (read < 4 + (int) sizeof(struct ip))
+		return 0;
+
 	/* find target ip in packet, in is padded with 4 bytes TUN header */
 	header = (struct ip*) (in + 4);
 	userid = find_user_by_ip(header->ip_dst.s_addr);
@@ -1871,7 +1875,7 @@ handle_full_packet(int tun_fd, struct dnsfd *dns_fds, int userid)
 	ret = uncompress((uint8_t*)out, &outlen,
 		   (uint8_t*)users[userid].inpacket.data, users[userid].inpacket.len);
 
-	if (ret == Z_OK) {
+	if (ret == Z_OK && outlen >= 4 + sizeof(struct ip)) {
 		struct ip *hdr;
 
 		hdr = (struct ip*) (out + 4);
